@@ -85,6 +85,15 @@ type checkResult struct {
 	errors      []string
 }
 
+// unbound records a part of a contract that can no longer be generated from the
+// current source (function gone, call site gone, identifier gone): obligations
+// that were discharged on the unchanged tree are not discharged now. It is
+// reported like a failed obligation, without a counterexample.
+func (res *checkResult) unbound(name, detail string) {
+	res.agg[name] = &aggObl{status: "unbound", n: 1, kind: "binding", solver: "none",
+		witness: &Obligation{Name: name, Goal: detail, Path: detail, Src: "contract does not bind to the current source"}}
+}
+
 func runProperty(P *Prog, id string, pd *PropDef, opts solveOpts) *checkResult {
 	res := &checkResult{prop: id, agg: map[string]*aggObl{}}
 	t0 := time.Now()
@@ -95,7 +104,7 @@ func runProperty(P *Prog, id string, pd *PropDef, opts solveOpts) *checkResult {
 	for _, key := range pd.Functions {
 		fn := P.Funcs[stripTypeArgs(key)]
 		if fn == nil {
-			res.undecided = append(res.undecided, "function "+key+" not found: its contract does not bind")
+			res.unbound(shortKey(key)+"#binding:function", "function "+key+" not found: its contract does not bind")
 			continue
 		}
 		var fc *FuncContract
@@ -114,7 +123,7 @@ func runProperty(P *Prog, id string, pd *PropDef, opts solveOpts) *checkResult {
 			}
 		}
 		if !found {
-			res.undecided = append(res.undecided, "lemma "+ln+" not found")
+			res.unbound("lemma."+ln+"#binding:lemma", "lemma "+ln+" not found")
 		}
 	}
 	// solve all (functions in parallel)
@@ -136,7 +145,11 @@ func runProperty(P *Prog, id string, pd *PropDef, opts solveOpts) *checkResult {
 			continue
 		}
 		if r.Error != "" {
-			res.errors = append(res.errors, r.Short+": "+r.Error)
+			if strings.Contains(r.Error, "unsupported") {
+				res.errors = append(res.errors, r.Short+": "+r.Error)
+			} else {
+				res.unbound(r.Short+"#binding:contract", r.Error)
+			}
 			continue
 		}
 		if r.Truncated {
@@ -152,17 +165,17 @@ func runProperty(P *Prog, id string, pd *PropDef, opts solveOpts) *checkResult {
 		if r.fx != nil && r.fx.fc != nil {
 			for site := range r.fx.fc.Asserts {
 				if !r.fx.boundAsserts[r.Key+"@"+site] {
-					res.undecided = append(res.undecided, fmt.Sprintf("%s: call-site assertion at %s does not bind", r.Short, site))
+					res.unbound(r.Short+"#binding:assert@"+site, fmt.Sprintf("%s: call-site assertion at %s does not bind", r.Short, site))
 				}
 			}
 			for site := range r.fx.fc.GhostSets {
 				if !r.fx.boundAsserts[r.Key+"@gs:"+site] {
-					res.undecided = append(res.undecided, fmt.Sprintf("%s: ghost assignment at %s does not bind", r.Short, site))
+					res.unbound(r.Short+"#binding:ghostset@"+site, fmt.Sprintf("%s: ghost assignment at %s does not bind", r.Short, site))
 				}
 			}
 			for n := range r.fx.fc.Loops {
 				if !r.fx.hasLoop(n) {
-					res.undecided = append(res.undecided, fmt.Sprintf("%s: loop %d does not bind", r.Short, n))
+					res.unbound(fmt.Sprintf("%s#binding:loop%d", r.Short, n), fmt.Sprintf("%s: loop %d does not bind", r.Short, n))
 				}
 			}
 		}
@@ -182,7 +195,7 @@ func runProperty(P *Prog, id string, pd *PropDef, opts solveOpts) *checkResult {
 			}
 		}
 		if !found {
-			res.undecided = append(res.undecided, "census rule "+cn+" not found")
+			res.unbound("census#"+cn+"#binding", "census rule "+cn+" not found")
 		}
 	}
 	res.wall = time.Since(t0).Seconds()
